@@ -6,6 +6,7 @@ import (
 	"bytes"
 	"context"
 	"errors"
+	"net"
 	"net/netip"
 	"os"
 	"sync/atomic"
@@ -21,6 +22,7 @@ import (
 
 // natUplinkMmsg is used for passing information about relay uplink to the relay goroutine.
 type natUplinkMmsg struct {
+	state          *atomic.Pointer[net.UDPConn]
 	clientName     string
 	clientAddrPort netip.AddrPort
 	natConn        *conn.MmsgWConn
@@ -325,6 +327,7 @@ func (s *UDPNATRelay) recvFromServerConnRecvmmsg(ctx context.Context, lnc *udpRe
 
 					s.wg.Go(func() {
 						s.relayServerConnToNatConnSendmmsg(ctx, natUplinkMmsg{
+							state:          &entry.state,
 							clientName:     clientInfo.Name,
 							clientAddrPort: clientAddrPort,
 							natConn:        natConn.NewWConn(),
@@ -495,6 +498,13 @@ main:
 				zap.Duration("natTimeout", uplink.natTimeout),
 				zap.Error(err),
 			)
+		}
+
+		// Stop moves the deadline into the past to end the session. If that happened just
+		// before the deadline was pushed out again above, redo it, or the downlink
+		// goroutine would keep the service from stopping for a whole NAT timeout.
+		if uplink.state.Load() != uplink.natConn.UDPConn {
+			_ = uplink.natConn.SetReadDeadline(conn.ALongTimeAgo)
 		}
 
 		qpvecn := qpvec[:count]
